@@ -68,13 +68,22 @@ def main(quick=True):
     return rc
 
 
-def seeded():
-    """each /verif/seeded/<id>/patch.diff must be detected by the check of the property it breaks"""
+def _benign_props(notes):
+    return None
+
+
+BENIGN_PROPS = {"A-1": ["C01"], "A-2": ["C10"], "A-3": ["C10", "C18"], "A-4": ["C10", "C03", "C14"], "A-5": ["C01", "C10", "C18"],
+                "A-6": ["C01", "C10", "C09"], "B-1": ["C09"], "B-2": ["C19"], "B-3": ["C09", "C12"], "B-4": ["C02", "C12"],
+                "B-5": ["C02", "C12", "C01"], "B-6": ["C19"], "C-1": ["C07"], "C-2": ["C06"], "C-3": ["C04"], "C-4": ["C13"],
+                "C-5": ["C04"], "C-6": ["C03", "C05"]}
+
+
+def seeded(update_meta=True):
+    """each /verif/seeded/<id>/patch.diff must be reported as a VIOLATION of the property it breaks; each
+    /verif/benign/<id>/patch.diff (behaviour-preserving refactor) must NOT be (exit 0, or 2 = undecided, never 1)"""
     sd = os.path.join(ROOT, "seeded")
     rc = 0
-    if not os.path.isdir(sd):
-        return 0
-    for name in sorted(os.listdir(sd)):
+    for name in sorted(os.listdir(sd)) if os.path.isdir(sd) else []:
         meta_p = os.path.join(sd, name, "meta.json")
         if not os.path.exists(meta_p):
             continue
@@ -82,7 +91,28 @@ def seeded():
         r = subprocess.run([sys.executable, os.path.join(ROOT, "tools", "mutcheck.py"), meta["property"], "--patch",
                             os.path.join(sd, name, "patch.diff")], capture_output=True, text=True)
         caught = "VIOLATION property=%s" % meta["property"] in r.stdout
-        print("seeded %-28s %s %s" % (name, meta["property"], "caught" if caught else "MISSED"))
+        lines = [l for l in r.stdout.splitlines() if l.startswith(("VIOLATION", "UNDECIDED", "CHECKER-ERROR", "  function", meta["property"] + " "))]
+        print("seeded %-12s %s %s" % (name, meta["property"], "caught" if caught else "MISSED  " + " | ".join(lines[:2])[:200]), flush=True)
+        if update_meta:
+            meta["caught_by_vf_check"] = caught
+            meta["vf_check_lines"] = lines[:8]
+            json.dump(meta, open(meta_p, "w"), indent=1)
         if not caught:
             rc = 1
+    bd = os.path.join(ROOT, "benign")
+    res = {}
+    for name in sorted(os.listdir(bd)) if os.path.isdir(bd) else []:
+        pf = os.path.join(bd, name, "patch.diff")
+        if not os.path.exists(pf):
+            continue
+        for pid in BENIGN_PROPS.get(name, []):
+            r = subprocess.run([sys.executable, os.path.join(ROOT, "tools", "mutcheck.py"), pid, "--patch", pf], capture_output=True, text=True)
+            ex = [l for l in r.stdout.splitlines() if l.startswith("exit ")][-1:]
+            alarm = "VIOLATION property=" in r.stdout
+            res["%s/%s" % (name, pid)] = (ex[0] if ex else "?") + (" FALSE-ALARM" if alarm else "")
+            print("benign %-6s %s %s%s" % (name, pid, ex[0] if ex else "?", "  FALSE ALARM" if alarm else ""), flush=True)
+            if alarm:
+                rc = 1
+    if update_meta and res:
+        json.dump(res, open(os.path.join(bd, "results.json"), "w"), indent=1)
     return rc
